@@ -5,6 +5,7 @@ import re
 
 from ..model import AnalysisError, norm, short, call_name, const_val, flatten_add, is_attr, is_name
 from ..report import rule
+from ..shapes import subst
 from ..consteval import get_folder, EnumRef, Sym, Auto, Unfoldable
 from ..ref import sgr
 
@@ -331,7 +332,7 @@ def T4(m, R):
                 'property %s returns %r which holds %r, not %s' % (prop, attr, attr_of.get(attr), want), construct='property ' + prop)
     # fn(): arity guard and setup + args
     fnf = m.fn('_AnsiControlFn.fn')
-    from ..shapes import local_aliases, canon
+    from ..shapes import subst,  local_aliases, canon
     fal = local_aliases(fnf)
     rets = [n for n in fnf.walk() if isinstance(n, ast.Return)]
     good = len(rets) == 1 and isinstance(rets[0].value, ast.BinOp) and isinstance(rets[0].value.op, ast.Add) and \
@@ -575,7 +576,27 @@ def T7(m, R):
         if len(rets) != 1:
             R.undecided(f, f.node, '%d return statements' % len(rets), construct=name)
             continue
-        parts = flatten_add(rets[0].value)
+        # a straight-line build-up of the sequence (seq = a + b; seq += c; return seq + d) is folded into one expression
+        retv = rets[0].value
+        env_ = {}
+        straight = True
+        for st_ in f.body:
+            if st_ is rets[0]:
+                break
+            if isinstance(st_, ast.Assign) and len(st_.targets) == 1 and isinstance(st_.targets[0], ast.Name):
+                env_[st_.targets[0].id] = subst(st_.value, env_)
+            elif isinstance(st_, ast.AugAssign) and isinstance(st_.target, ast.Name) and isinstance(st_.op, ast.Add) and st_.target.id in env_:
+                env_[st_.target.id] = ast.BinOp(left=env_[st_.target.id], op=ast.Add(), right=subst(st_.value, env_))
+            elif isinstance(st_, ast.Expr) and isinstance(st_.value, ast.Constant):
+                continue
+            else:
+                straight = False
+        if env_ and straight:
+            retv = subst(retv, {k_: v_ for k_, v_ in env_.items() if k_ not in f.params})
+        elif env_ and not straight:
+            R.undecided(f, f.node, 'the sequence is built by statements that are not straight-line', construct=name)
+            continue
+        parts = flatten_add(retv)
         vals = []
         for p in parts:
             if call_name(p) == 'str' and len(p.args) == 1 and isinstance(p.args[0], ast.Name):
